@@ -6,6 +6,7 @@ mod codes_drv;
 mod common;
 mod gen;
 mod names_drv;
+mod pool_drv;
 mod rdata_drv;
 mod reader_drv;
 mod rrl_drv;
@@ -32,6 +33,7 @@ fn main() {
         "zone" => zone_drv::main(&args[1..]),
         "catalog" => catalog_drv::main(&args[1..]),
         "rrl" => rrl_drv::main(&args[1..]),
+        "pool" => pool_drv::main(&args[1..]),
         "zonefile" => zonefile_drv::main(&args[1..]),
         d => {
             eprintln!("unknown driver {}", d);
